@@ -37,7 +37,7 @@ let c20_strip (l : n list) : n list =
       else begin out := a.(!i) :: !out; incr i end
     end else begin out := a.(!i) :: !out; incr i end
   done;
-  List.rev_map n_of_int !out |> List.rev |> List.rev
+  List.rev_map n_of_int !out
 
 let c20_zs = z_of_string
 
